@@ -345,17 +345,17 @@ func readMode(n int) string {
 func compPlan(r *ev.Run) []compBatch {
 	var out []compBatch
 	gs := []int{16, 32, 64}
-	nb := r.Pick(6, 150)
+	nb := r.Pick(6, 60)
 	for i := 0; i < nb; i++ {
 		g := gs[i%3]
-		t := r.Pick(128, 208) / g
+		t := r.Pick(128, 128) / g
 		if t < 1 {
 			t = 1
 		}
 		out = append(out, compBatch{Part: "compress", Batch: i, Goroutines: g, Trips: t})
 	}
 	// few dozen (quick) / few hundred (thorough) MiB-size trips: the race build is ~30x slower there
-	nbig := r.Pick(1, 18)
+	nbig := r.Pick(1, 10)
 	for i := 0; i < nbig; i++ {
 		out = append(out, compBatch{Part: "compress", Batch: 1000 + i, Big: true, Goroutines: 18, Trips: 2})
 	}
